@@ -1,19 +1,46 @@
 #!/usr/bin/env python3
-"""Prints the markdown table of seeded changes (DESIGN.md §7.5) from seeded/*/meta.json."""
+"""Prints the markdown tables of seeded changes (DESIGN.md §7.5) from seeded/*/meta.json.
+
+  tools/seed_table.py [r1|r2]      (default: both rounds, one table each, plus counts)
+"""
 import glob
 import json
 import os
+import sys
 
-rows = []
-for mp in sorted(glob.glob(os.path.join(os.path.dirname(os.path.dirname(os.path.abspath(__file__))), "seeded", "*", "meta.json"))):
-    m = json.load(open(mp))
-    name = os.path.basename(os.path.dirname(mp))
-    checks = m["ran"]["checks"]
-    verdicts = ", ".join(f"{p} {v['verdict']} ({v['seconds']}s)" for p, v in checks.items())
-    sig = next((v["signatures"][0] for v in checks.values() if v.get("signatures")), "")
-    sig = sig.split("]")[0].lstrip("[ ") if sig else ""
-    rows.append((name, m["property"], m.get("summary", ""), m.get("needs", ""), verdicts, sig))
-print("| seed | property | change | needs to manifest | verdict (tier quick unless noted) | first signature |")
-print("|---|---|---|---|---|---|")
-for r in rows:
-    print("| " + " | ".join(str(x).replace("|", "/") for x in r) + " |")
+ROOT = os.path.dirname(os.path.dirname(os.path.abspath(__file__)))
+
+
+def rows(rnd):
+    out = []
+    for mp in sorted(glob.glob(os.path.join(ROOT, "seeded", "*", "meta.json"))):
+        name = os.path.basename(os.path.dirname(mp))
+        is_r2 = "-r2" in name or "-r3" in name
+        if (rnd == "r1") == is_r2:
+            continue
+        m = json.load(open(mp))
+        checks = m["ran"]["checks"]
+        verdicts = ", ".join(f"{p} {v['verdict']}" for p, v in checks.items())
+        out.append((name, m.get("summary", ""), m.get("needs", ""), verdicts, m.get("history", "")))
+    return out
+
+
+def table(rnd):
+    rs = rows(rnd)
+    print("| seed | change | needs to manifest | verdict now (quick tier) | history |")
+    print("|---|---|---|---|---|")
+    for r in rs:
+        print("| " + " | ".join(str(x).replace("|", "/").replace("\n", " ") for x in r) + " |")
+    n = len(rs)
+    start = sum(1 for r in rs if r[4].startswith("caught from the start"))
+    err = sum(1 for r in rs if r[4].startswith("harness error"))
+    missed = sum(1 for r in rs if r[4].startswith("missed at first") or "missed it at first" in r[4] or r[4].startswith("missed"))
+    now = sum(1 for r in rs if "CAUGHT" in r[3])
+    print(f"\n<!-- {rnd}: {n} changes; caught from the start {start}; harness error at first {err}; missed at first {missed}; caught now {now} -->")
+
+
+if __name__ == "__main__":
+    which = sys.argv[1:] or ["r1", "r2"]
+    for w in which:
+        table(w)
+        print()
